@@ -275,12 +275,12 @@ pub open spec fn pq_cleaned(w0: St, w1: St, u: Unbonding) -> bool {
     swf(w1) && (w1 == w0 || dust_removed(w0, w1, u.delegator, u.validator@))
 }
 // C14 / C15, from the statements: paying out an unbonding takes nothing else from a delegation.  The one thing the
-// housekeeping may do is drop an entry that holds nothing: less than one token of stake and no accrued rewards; the
-// validator's record loses that staker and keeps its total and its reward clock
+// housekeeping may do is drop an entry that holds NOTHING: no stake (not even a fraction of a token, which would still
+// earn rewards) and no accrued rewards; the validator's record loses that staker and keeps its total and its reward clock
 pub open spec fn dust_removed(w0: St, w1: St, d: Addr, v: Seq<char>) -> bool {
     &&& frame2(w0, w1, d, v)
     &&& get_shares(w0, d, v) matches Ok(Some(x))
-    &&& x.stake.atomics < dec_one() && x.rewards.atomics == 0
+    &&& x.stake.atomics == 0 && x.rewards.atomics == 0
     &&& !w1.contains_key(k_stake(d, v))
     &&& get_vinfo(w0, v) matches Ok(Some(i0))
     &&& get_vinfo(w1, v) matches Ok(Some(i1))
@@ -379,9 +379,9 @@ pub open spec fn queue_processed<ExecC, QueryC>(router: &dyn CosmosRouter<ExecC,
 //@   replace_re "(?P<Q>\\w+)\\s*\\.iter\\(\\)\\s*\\.filter\\(\\|(?P<X>\\w+)\\| (?P<C>[^\\n]*)\\)\\s*\\n\\s*\\.map\\(\\|(?P<Y>\\w+)\\| (?P<E>[^\\n]*)\\)\\s*\\n\\s*\\.sum::<Uint128>\\(\\)" => "{ let mut vx_s = Uint128::zero(); let mut vx_j: usize = 0;\n while vx_j < \\g<Q>.len()\n invariant vx_j <= \\g<Q>@.len(),\n decreases \\g<Q>@.len() - vx_j,\n { let \\g<X> = &\\g<Q>[vx_j]; if \\g<C> { let \\g<Y> = \\g<X>; vx_s = vx_s + \\g<E>; }\n vx_j += 1; }\n vx_s }"
 //@   replace "_ => break," => "_ => { vx_release_ps(staking_storage); break }"
 //@   replace_re? "\\.map\\(\\|mut stake\\| \\{" => ".map(|vx_stake0: Coin| -> (vx_c: Coin) ensures vx_c.amount.u >= vx_stake0.amount.u { let mut stake = vx_stake0;"
-//@   replace_re? "\\|shares\\| !shares\\.rewards\\.is_zero\\(\\)" => "|shares: Shares| -> (vx_b: bool) ensures vx_b == (shares.rewards.atomics != 0) { !shares.rewards.is_zero() }"
+//@   replace_re? "\\|shares\\| \\{\\s*shares\\.stake\\.is_zero\\(\\) && shares\\.rewards\\.is_zero\\(\\)\\s*\\}" => "|shares: Shares| -> (vx_b: bool) ensures vx_b == (shares.stake.atomics == 0 && shares.rewards.atomics == 0) { shares.stake.is_zero() && shares.rewards.is_zero() }"
 //@   before "re:^\\s*match delegation \\{\\s*$" let ghost dg = delegation;
-//@   after "re:^\\s*\\.map_or\\(false, .*\\);\\s*$" proof { let d = u.delegator; let v = u.validator@; assert(get_shares(w_a, d, v) matches Ok(Some(x)) && (has_rewards == (x.rewards.atomics != 0)) && x.stake.atomics < dec_one()); }
+//@   before "re:^\\s*if is_empty \\{\\s*$" proof { let d = u.delegator; let v = u.validator@; assert(get_shares(w_a, d, v) matches Ok(Some(x)) && (is_empty == (x.stake.atomics == 0 && x.rewards.atomics == 0))); }
 //@   replace_re? "if (?P<A>\\w+) <= &(?P<B>[\\w.]+) =>" => "if *\\g<A> <= *(&\\g<B>) =>"
 //@   begin broadcast use {axiom_vec_canon, axiom_vec_of_view, axiom_str_canon, axiom_str_of_view, lemma_str_ext_b, lemma_vec_ext_b}; let ghost s0 = storage.view(); proof { axiom_addr_key_laws(); lemma_splice_same(storage.view(), lp(ns_staking())); }
 //@   after "re:^\\s*\\.unwrap_or_default\\(\\);\\s*$" let ghost q0 = unbonding_queue@; proof { assert(q0 == queue_of(sw(s0))); }
